@@ -44,6 +44,17 @@ def lean_stage(pid):
     import subprocess
     res = dict(build_ok=False, obligations=0, discharged=0, broken=[], forbidden=[], theorems={}, wall=0.0)
     t0 = time.time()
+    # engine C: regenerate the tables the proofs depend on from /repo's current sources
+    try:
+        import sys
+        hdir = os.path.join(VERIF, "harness")
+        if hdir not in sys.path:
+            sys.path.insert(0, hdir)
+        from translate import regen_all
+        res["regenerated"] = regen_all.regenerate(proto.LEAN_DIR)
+    except Exception as e:  # noqa: BLE001
+        res["regenerated"] = f"translator failed: {type(e).__name__}: {e}"
+        res["broken"].append("translator: " + str(res["regenerated"])[:200])
     names = leanbuild.property_theorems(pid)
     res["obligations"] = len(names)
     targets = ["aqdriver"]
@@ -57,7 +68,7 @@ def lean_stage(pid):
         raise Infra("Lean driver does not build:\n" + log[-1500:])
     if p.returncode != 0:
         import re
-        res["broken"] = re.findall(r"^- (\S+)$", log, flags=re.M) or ["lake build failed"]
+        res["broken"] += re.findall(r"^- (\S+)$", log, flags=re.M) or ["lake build failed"]
         res["errors"] = [l for l in log.split("\n") if l.startswith("error:")][:10]
     res["forbidden"] = leanbuild.forbidden_hits()
     if names and res["build_ok"]:
